@@ -759,6 +759,41 @@ def unit_history(ctx):
             return
 
 
+def unit_degenerate(ctx):
+    """Counts and cell sizes that cannot describe a lattice - a zero, negative or fractional count, a zero or negative cell
+    size, in one direction while the other directions are fine - must be refused: a mesh has n >= 1 whole cells per
+    direction and exists by cell size only when the edges are a whole (positive) number of cells."""
+    ndim = ctx.choose("ndim", [2, 3, 1])
+    bad_axis = ctx.choose("bad_axis", list(range(ndim)))
+    how = ctx.choose("by", ["n", "cell"])
+    kind = ctx.choose("kind", ["zero", "negative", "fractional", "negative-commensurate", "nan"] if how == "n"
+                      else ["zero", "negative-commensurate", "negative", "nan", "inf"])
+    container = ctx.choose("container", ["tuple", "list", "ndarray"])
+    others = ctx.choose("others", ["1", "3"])
+    lo = [0.5, -2.0, 10.0][:ndim]
+    edge = [6.0, 3.0, 1.5][:ndim]
+    region = df.Region(p1=tuple(lo), p2=tuple(a + e for a, e in zip(lo, edge)))
+    k = int(others)
+    if how == "n":
+        vals = [k] * ndim
+        vals[bad_axis] = {"zero": 0, "negative": -1, "negative-commensurate": -3, "fractional": 1.5, "nan": float("nan")}[kind]
+    else:
+        vals = [e / k for e in edge]
+        vals[bad_axis] = {"zero": 0.0, "negative": -0.7, "negative-commensurate": -edge[bad_axis] / 3,
+                          "nan": float("nan"), "inf": float("inf")}[kind]
+    arg = {"tuple": tuple, "list": list, "ndarray": np.array}[container](vals)
+    if how == "n" and container == "ndarray" and kind in ("fractional", "nan"):
+        raise engine.Skip()  # a float array of counts: every entry is a float, also the whole ones
+    ctx.step(1, f"Mesh(region, {how}={arg!r})")
+    with np.errstate(all="ignore"):
+        raised, r = C.raises(lambda: df.Mesh(region=region, **{how: arg}))
+    ctx.check()
+    ctx.observe(raised, type(r).__name__)
+    if not raised:
+        ctx.fail(f"Mesh({how}=)/accepts-{kind}-entry", f"{how}={arg!r} on edges {edge}: mesh with n={r.n.tolist()} cell={r.cell.tolist()}",
+                 instance=ctx.key(drop=("container",)))
+
+
 def units(tier):
     return [
         {"name": "lattice1d", "fn": unit_lattice1d, "bound": None},
@@ -769,6 +804,7 @@ def units(tier):
         {"name": "bycell2d", "fn": unit_bycell2d, "bound": None},
         {"name": "bycell_many", "fn": unit_bycell_many, "bound": None},
         {"name": "tolerance", "fn": unit_tolerance, "bound": None},
+        {"name": "degenerate", "fn": unit_degenerate, "bound": None},
         {"name": "history", "fn": unit_history, "bound": None},
         {"name": "aliasing", "fn": unit_aliasing, "bound": None},
     ]
